@@ -149,12 +149,14 @@ func _yieldBareMarshalMachinePtr(row *marshalSlabRow, atl atlas.Atlas, rt reflec
 		return mach
 	case reflect.Interface:
 		return &row.marshalMachineWildcard
-	case reflect.Func:
-		panic(fmt.Errorf("functions cannot be marshalled!"))
 	case reflect.Ptr:
 		panic(fmt.Errorf("unreachable: ptrs must already be resolved"))
 	default:
-		panic(fmt.Errorf("excursion %s", rt.Kind()))
+		// chan, func, complex, unsafe pointer: not serializable.  Report it like any other
+		// unsupported type, as an error rather than a panic.
+		mach := &row.errThunkMarshalMachine
+		mach.err = fmt.Errorf("values of kind %s (type %v) cannot be marshalled", rt.Kind(), rt)
+		return mach
 	}
 }
 
